@@ -379,4 +379,92 @@ pub fn run(ctx: &mut Ctx) {
             ctx.stat("written:literal_partial");
         }
     }
+    // packet STREAMS: a packet the parser refuses (reserved / unassigned critical tags, a body it cannot
+    // parse) must still be skipped as a whole: what the iterator yields afterwards are the packets
+    // that follow it, never pieces of its body
+    {
+        let marker = b"\xCA\x03PGP".to_vec();
+        let inner_a = crate::frame::frame_fixed(true, 13, 1, b"smuggled").unwrap_or_default();
+        let inner_b = crate::frame::frame_fixed(true, 10, 1, b"PGP").unwrap_or_default();
+        let mut bodies: Vec<Vec<u8>> = vec![vec![], vec![0x01], [inner_a.clone(), inner_b.clone()].concat(), inner_b.clone(), pattern(3, 40)];
+        bodies.push([inner_b.clone(), inner_b.clone(), inner_b.clone()].concat());
+        for tag in 0u8..64 {
+            for fmt in [0u8, 1] {
+                if fmt == 0 && tag >= 16 {
+                    continue;
+                }
+                for (bi, body) in bodies.iter().enumerate() {
+                    let Some(mid) = crate::frame::frame_fixed(fmt == 1, tag, if fmt == 1 { 1 } else { 0 }, body) else { continue };
+                    let uid = crate::frame::frame_fixed(true, 13, 1, b"last").unwrap_or_default();
+                    let stream = [marker.clone(), mid, uid.clone()].concat();
+                    let r = guarded(|| {
+                        let mut items: Vec<String> = Vec::new();
+                        for p in PacketParser::new(&stream[..]) {
+                            items.push(match p {
+                                Ok(p) => format!("ok:{}", u8::from(pgp::packet::PacketTrait::packet_header(&p).tag())),
+                                Err(_) => "err".to_string(),
+                            });
+                            if items.len() > 16 {
+                                break;
+                            }
+                        }
+                        items
+                    });
+                    let input = format!("stream marker | tag={tag} fmt={fmt} body#{bi}={} | userid 'last'", hx(body));
+                    match r {
+                        Ok(items) => {
+                            // exactly three items; the first is the marker, the last is the user id
+                            let ok = items.len() == 3 && items[0] == "ok:10" && items[2] == "ok:13";
+                            ctx.oracle("refused_packet_skipped_whole", "PacketParser iterator over a stream", &input, ok, &items.join(","));
+                        }
+                        Err(p) => ctx.oracle("refused_packet_skipped_whole", "PacketParser iterator over a stream", &input, false, &format!("panic: {p}")),
+                    }
+                    ctx.stat("stream:middle_packet");
+                }
+            }
+        }
+    }
+    // large chunk sizes (1, 2, 4 MiB; the format allows up to 2^30): the length octet and the octets
+    // that follow must agree there too (oracle only: the streams are megabytes long)
+    let big: &[u32] = if ctx.thorough() { &[20, 21, 22] } else { &[21] };
+    for &k in big {
+        let c = 1usize << k;
+        let sizes: Vec<usize> = if ctx.thorough() { vec![c / 2 - 6, c / 2, c - 7, c - 6, c - 5, c, 2 * c - 6, 2 * c + 3] } else { vec![c / 2 - 6, c - 6, c + 1] };
+        for (j, &n) in sizes.iter().enumerate() {
+            let payload = pattern(90 + j, n);
+            let out = guarded(|| {
+                let src = ScheduledReader::new(&payload, &[65536, 1, 1 << 20]);
+                let mut b = MessageBuilder::from_reader("", src);
+                b.partial_chunk_size(1u32 << k).ok()?;
+                b.to_vec(rand::thread_rng()).ok()
+            });
+            let Ok(Some(out)) = out else {
+                ctx.oracle("builder_emits", "MessageBuilder::to_vec", &format!("k={k} n={n}"), false, "builder failed");
+                continue;
+            };
+            let (ans, got) = real_deframe(&out);
+            let ok = matches!(&got, Some((b, r)) if b.len() == n + 6 && b[6..] == payload[..] && r.is_empty());
+            ctx.oracle("written_stream_read_back", "MessageBuilder literal partial (large chunk size)", &format!("k={k} n={n}"), ok, &ans[..ans.len().min(120)]);
+            // independent walk of the framing: every length octet is followed by that many octets
+            let mut pos = 1usize;
+            let mut total = 0usize;
+            let mut legal = !out.is_empty() && out[0] == 0xCB;
+            while legal && pos < out.len() {
+                let o = out[pos] as usize;
+                let (len, hl, last) = if o < 192 { (o, 1, true) } else if o < 224 {
+                    if pos + 1 >= out.len() { legal = false; break; }
+                    (((o - 192) << 8) + out[pos + 1] as usize + 192, 2, true)
+                } else if o < 255 { (1usize << (o & 31), 1, false) } else {
+                    if pos + 4 >= out.len() { legal = false; break; }
+                    (u32::from_be_bytes([out[pos + 1], out[pos + 2], out[pos + 3], out[pos + 4]]) as usize, 5, true)
+                };
+                if pos + hl + len > out.len() { legal = false; break; }
+                total += len;
+                pos += hl + len;
+                if last { break; }
+            }
+            ctx.oracle("writer_emits_legal_framing", "MessageBuilder literal partial (large chunk size)", &format!("k={k} n={n}"), legal && pos == out.len() && total == n + 6, &format!("walked {pos} of {} octets, body {total}", out.len()));
+            ctx.stat("written:literal_partial_large");
+        }
+    }
 }
